@@ -68,6 +68,20 @@ theorem lazy_eq_eager (S : Suite) (allow : String → List String) (sel : List R
     i ∈ lazyNodes S allow order ↔ i ∈ workerNodes S allow sel :=
   lazy_order_irrelevant S allow order (selected S sel) h i
 
+/-- the form the driver evaluates (`resolveLazy`): the flat nodes a worker has expanded are given by a predicate on
+the suite's tests; if it holds exactly for the selected tests, the worker's lazily built copy is the eager one -/
+theorem lazy_steps_eq_eager (S : Suite) (allow : String → List String) (sel : List RLine) (p : Test → Bool)
+    (h : ∀ t ∈ S.tests, p t = true ↔ t ∈ selected S sel) (i : Inst) :
+    i ∈ lazyNodes S allow (S.tests.filter p) ↔ i ∈ workerNodes S allow sel := by
+  apply lazy_eq_eager
+  intro t
+  rw [List.mem_filter]
+  constructor
+  · rintro ⟨ht, hp⟩; exact (h t ht).mp hp
+  · intro hs
+    have ht := selected_subset S sel t hs
+    exact ⟨ht, (h t ht).mpr hs⟩
+
 /-- at every moment of a lazy traversal the graph built so far is a sub-graph of the eager one … -/
 theorem lazy_partial_subset (S : Suite) (allow : String → List String) (sel : List RLine) (order : List Test)
     (h : ∀ t ∈ order, t ∈ selected S sel) (i : Inst) (hi : i ∈ lazyNodes S allow order) :
